@@ -56,6 +56,8 @@ CallFunc(sig, args) ==
     [] sig = "cat" -> IF Len(args) = 2 /\ args[1].k = "str" /\ args[2].k = "str" THEN Val(S(args[1].s \o args[2].s)) ELSE Error   \* func(string, string) string
     [] sig = "anyv" -> IF Len(args) = 1 THEN Val(S(StrOf(args[1]))) ELSE Error                         \* func(*Value) string
     [] sig = "ctx" -> IF Len(args) = 0 THEN Val(S(<<"c", "x">>)) ELSE Error                            \* func(*ExecutionContext) string: implicit parameter
+    [] sig = "ctxv" -> IF \A i \in 1..Len(args) : args[i].k = "int"                                    \* func(*ExecutionContext, ...int) int: implicit parameter, then variadic
+                         THEN Val(I(100 + (LET RECURSIVE Sm(_) Sm(i) == IF i > Len(args) THEN 0 ELSE args[i].n + Sm(i + 1) IN Sm(1)))) ELSE Error
     [] sig = "nilres" -> IF Len(args) = 0 THEN Empty ELSE Error                                        \* func() any returning nil
     [] OTHER -> Error
 
